@@ -114,7 +114,7 @@ def rand_space(rng, nenv, max_cells=8, kind=None, hetero_units=True, cubic=False
     nodes = [{"vol": rand_qty(rng, units, zero=0.0, lo=-1, hi=1), "env": rng.randrange(nenv),
               "units": (rand_sys(rng) if hetero_units and rng.random() < 0.5 else units)} for _ in range(n)]
     edges, seen = [], set()
-    for _ in range(rng.randint(0, 2 * n)):
+    for _ in range(0 if rng.random() < 0.1 else rng.randint(n, 3 * n)):
         i, j = rng.randrange(n), rng.randrange(n)
         if i == j or (min(i, j), max(i, j)) in seen:
             continue
@@ -141,7 +141,7 @@ def rand_space_cubic(rng, nenv, max_cells, kind, units, hetero_units):
         nodes.append({"vol": vol, "edge": edge, "env": rng.randrange(nenv),
                       "units": (rand_sys(rng) if hetero_units and rng.random() < 0.5 else units)})
     edges, seen = [], set()
-    for _ in range(rng.randint(0, 2 * n)):
+    for _ in range(0 if rng.random() < 0.1 else rng.randint(n, 3 * n)):
         i, j = rng.randrange(n), rng.randrange(n)
         if i == j or (min(i, j), max(i, j)) in seen:
             continue
@@ -237,7 +237,7 @@ def build_reaction(strengths, r):
     oprod = sum(r["prod"].values())
     return strengths.Reaction(stoichiometry=[dict(r["sub"]), dict(r["prod"])],
                               kf=py_envval(U, r["kf"], kdim(osub)), kr=py_envval(U, r["kr"], kdim(oprod)),
-                              units_system=py_sys(U, r["units"]))
+                              label=r.get("label"), units_system=py_sys(U, r["units"]))
 
 
 def build_network(strengths, desc):
